@@ -263,7 +263,9 @@ func checkCase(c *core.Ctx, cs Case) {
 		}
 		switch kind {
 		case "error":
-			if o.Err == "" {
+			if o.Err == "" && o.Panic != "" {
+				c.Fail("", cs, "%s: a generator returned an error: Execute did not return it, it panicked: %s", desc, o.Panic)
+			} else if o.Err == "" {
 				c.Fail("", cs, "%s: a generator returned an error but Execute returned nil", desc)
 			} else if !strings.Contains(o.Err, f.Gen) || !strings.Contains(o.Err, modPath+"/"+failPkg) {
 				c.Fail("", cs, "%s: Execute error %q does not name generator %q and package %q", desc, o.Err, f.Gen, modPath+"/"+failPkg)
